@@ -25,22 +25,29 @@ def rule_idx_pos(ctx, cfg, F):
             continue
         tr = Tracer(f)
         pushes = [(b, t) for b, t in f.calls_to("std::vec::Vec::push") if _is_side_table_vec(t) and "std::cell::RefCell::borrow_mut" in chain_calls(f, t["args"][0])]
-        if pushes and f.kind == "Closure":
+        if pushes:
             n_ser += 1
             key = strip_generics(f.path)
-            if len(pushes) != 1 or not f.all_paths_pass(0, [pushes[0][0]])[0]:
+            # a closure that is the whole "push and return the index" step pushes on every path; a body that also holds the
+            # `None => usize::MAX` arm (closure/helper inlined) pushes on every path that read the length (checked below)
+            if len(pushes) != 1 or (f.kind == "Closure" and not f.all_paths_pass(0, [pushes[0][0]])[0]) or pushes[0][0] in f.loop_blocks():
                 R.violate("%s:push-count" % key, "%d pushes onto the side table (expected exactly one on every path): indices of later attachments shift" % len(pushes), f.path, f.loc(0), config=cfg)
                 continue
             pb, pt = pushes[0]
             table = {r.key() for r in tr.roots_of_operand(pt["args"][0])}
             ret = tr.roots(0)
+            if f.kind != "Closure":
+                ret = set()
+                for b_, t_ in f.calls():
+                    if strip_generics(t_.get("callee") or "") == "serde::Serialize::serialize":
+                        ret |= {r for r in tr.roots_of_operand(t_["args"][0]) if not (r.kind == "const" and r.id == USIZE_MAX)}
             lens = [r for r in ret if r.kind == "call" and r.id == "std::vec::Vec::len"]
             if len(ret) != 1 or not lens:
                 R.violate("%s:index-not-len" % key, "the index handed to the serializer is not the table's length (%s)" % sorted(map(repr, ret)), f.path, f.loc(pb), config=cfg)
                 continue
             lb = lens[0].block
             same = {r.key() for r in tr.roots_of_operand(f.term(lb)["args"][0])} == table
-            before = f.dominates(lb, pb) and lb != pb
+            before = f.dominates(lb, pb) and lb != pb and (f.kind == "Closure" or f.all_paths_pass(f.term(lb)["to"], [pb])[0])
             muts = [b for b, t in f.calls() if strip_generics(callee_name(t)) in ("std::vec::Vec::push", "std::vec::Vec::insert", "std::vec::Vec::remove", "std::vec::Vec::pop", "std::vec::Vec::clear", "std::vec::Vec::truncate", "std::vec::Vec::swap_remove")
                     and b != pb and b in f.reachable(f.term(lb)["to"]) ]
             if same and before and not muts:
@@ -49,7 +56,19 @@ def rule_idx_pos(ctx, cfg, F):
                 R.violate("%s:index-position" % key, "the serialised index is not the position of the pushed element (same table: %s, read before the push: %s, other mutations: %d)" % (same, before, len(muts)),
                           f.path, f.loc(pb), config=cfg)
             # parent: what is serialised is the closure's result (or the empty sentinel)
-            parent = F.fns.get(f.parent)
+            parent = F.fns.get(f.parent) if f.kind == "Closure" else None
+            if f.kind != "Closure":
+                # push and serialisation in one body (helper / closure inlined): the serialised value is the length read above
+                sers = [(b, t) for b, t in f.calls() if strip_generics(t.get("callee") or "") == "serde::Serialize::serialize"]
+                for b, t in sers:
+                    rs = tr.roots_of_operand(t["args"][0])
+                    ok = all((r.kind == "call" and r.id == "std::vec::Vec::len") or (r.kind == "const" and r.id == USIZE_MAX) for r in rs) and any(r.kind == "call" for r in rs)
+                    ty = _ser_int_type(t)
+                    ser_types.add(ty)
+                    if ok:
+                        R.ok("%s serialises the table length read before the push, as %s" % (f.path, ty), f.loc(b), cfg)
+                    else:
+                        R.violate("%s:serialised-value" % strip_generics(f.path), "the value written to the stream is not the index of the pushed attachment (%s)" % sorted(map(repr, rs)), f.path, f.loc(b), config=cfg)
             if parent:
                 trp = Tracer(parent)
                 sers = [(b, t) for b, t in parent.calls() if strip_generics(t.get("callee") or "") == "serde::Serialize::serialize"]
@@ -197,7 +216,8 @@ def _consume_moves(F, g):
             return False
         sets = [t for b, t in h.calls_to("std::cell::Cell::set") if (op_const(t["args"][1]) or 0) < 0]
         gets = list(h.calls_to("std::cell::Cell::get"))
-        return bool(sets) and bool(gets)
+        repl = [t for b, t in h.calls_to("std::cell::Cell::replace", "std::mem::replace") if len(t["args"]) > 1 and (op_const(t["args"][1]) or 0) < 0]
+        return (bool(sets) and bool(gets)) or bool(repl)
     return "std::option::Option::take" in names or "std::mem::take" in names or "std::mem::replace" in names
 
 
@@ -246,6 +266,14 @@ def rule_split_order(ctx, cfg, F):
                 R.ok("descriptors are read at index i of a forward range", g.loc(b), cfg)
             else:
                 R.violate("%s:split-index" % g.path, "descriptors are not read at the plain forward loop index (%s)" % sorted(map(repr, idx)), g.path, g.loc(b), config=cfg)
+        # second accepted form: a forward iterator over the slice view of the control-message data
+        for b, t in g.calls():
+            nm = strip_generics(callee_name(t))
+            if (nm in ("core::slice::iter", "std::iter::IntoIterator::into_iter") or nm.endswith("IntoIterator>::into_iter")
+                    or strip_generics(t.get("callee") or "") == "std::iter::IntoIterator::into_iter") and t["args"] \
+                    and any(r.kind == "call" and r.id.endswith("CMSG_DATA") for r in tr.roots_of_operand(t["args"][0])):
+                n += 1
+                R.ok("descriptors are visited by a forward slice iterator over the control-message data", g.loc(b), cfg)
         bad = [b for b, t in g.calls() if strip_generics(callee_name(t)) in ("std::vec::Vec::insert", "std::iter::Iterator::rev", "core::slice::reverse")]
         if bad:
             R.violate("%s:split-reorders" % g.path, "the split loop inserts or reverses", g.path, g.loc(bad[0]), config=cfg)
@@ -584,6 +612,9 @@ def rule_shm_sentinel(ctx, cfg, F):
         t = ser.term(b)
         if t["t"] == "call" and strip_generics(callee_name(t)) == "std::thread::LocalKey::with":
             yield ("wrote", "index")
+        # the closure inlined into this body: the push onto the region table is the "index" step
+        if t["t"] == "call" and strip_generics(callee_name(t)) == "std::vec::Vec::push" and "OsIpcSharedMemory" in " ".join(t.get("generics", [])):
+            yield ("wrote", "index")
     bad = False
     npaths = 0
     for facts, rb, path in path_summaries(ser, edge_fact, block_fact):
@@ -613,6 +644,10 @@ def rule_shm_sentinel(ctx, cfg, F):
             if nm == "ipc::IpcSharedMemory::empty":
                 yield ("made", "empty")
             if nm == "std::thread::LocalKey::with":
+                yield ("made", "lookup")
+            # the closure inlined into this body: an indexed access of the region table
+            if (nm in ("core::slice::get_mut", "core::slice::get", "std::vec::Vec::get_mut") or strip_generics(t.get("callee") or "") in ("std::ops::Index::index", "std::ops::IndexMut::index_mut")) \
+                    and "OsIpcSharedMemory" in " ".join(t.get("generics", [])):
                 yield ("made", "lookup")
         for st in de.stmts(b):
             if st["s"] == "assign" and st["lhs"]["l"] == 0 and st["rv"]["r"] == "agg":
@@ -678,7 +713,10 @@ def rule_shm_couple(ctx, cfg, F):
             mt = f.term(maps[0].block)
             store_of_map = _root_local(f, tr, mt["args"][0])
             store_moved = _root_local(f, tr, t["args"][2])
-            if store_of_map != store_moved:
+            rm_ = {(r.kind, r.id, r.block) for r in tr.roots_of_operand(mt["args"][0])}
+            rs_ = {(r.kind, r.id, r.block) for r in tr.roots_of_operand(t["args"][2])}
+            same_origin = len(rm_) == 1 and rm_ == rs_ and next(iter(rm_))[0] == "call"     # one creation site (call@block) feeds both
+            if store_of_map != store_moved and not same_origin:
                 R.violate("%s:store-mismatch" % key, "the pointer was mapped from a different BackingStore than the one moved into the region", f.path, f.loc(b), config=cfg)
                 continue
             # length: Some(x) passed to map_file with x == length arg; or map_file().1
